@@ -1,7 +1,8 @@
 (* C08 - property theorems only. *)
 From Coq Require Import Reals List String Bool Lra Lia Arith.
-From PP Require Import C08.Unique Gen.StartValueUses.
+From PP Require Import C08.Unique Gen.StartValueUses C08.KernelMono.
 Import ListNotations.
+Open Scope R_scope.
 
 (* Two exact solutions of the same network (same fixed pressures, loads, strictly increasing branch
    laws) carry the same mass flows, whatever iterate they were reached from ... *)
@@ -38,8 +39,25 @@ Theorem start_values_only_seed_unknowns :
 Proof. vm_compute. repeat split; reflexivity. Qed.
 Print Assumptions start_values_only_seed_unknowns.
 
+(* T-tie: the branch law the code really assembles (generated incompressible kernel + Nikuradse friction
+   factor of calc_lambda, numpy and numba twins) is strictly increasing in the mass flow, so the
+   uniqueness theorems apply to it.  Needs a resistance (L + zeta > 0): a zero-length branch without
+   loss coefficient has phi = 0 and leaves the split between parallel branches undetermined. *)
+Theorem incomp_nikuradse_law_strictly_monotone :
+  forall A D eta k L zeta PL dl dh p_to p_from rho,
+    0 < A -> 0 < D -> 0 < eta -> 0 < rho -> 0 < k -> k <> 371 / 100 * D -> 0 <= L -> 0 <= zeta -> 0 < L + zeta ->
+    strictly_increasing (incomp_phi_np A D eta k L zeta PL dl dh p_to p_from rho).
+Proof. exact KernelMono.incomp_nikuradse_law_strictly_monotone. Qed.
+Print Assumptions incomp_nikuradse_law_strictly_monotone.
+
+Theorem incomp_nikuradse_law_strictly_monotone_numba :
+  forall A D eta k L zeta PL dl dh p_to p_from rho,
+    0 < A -> 0 < D -> 0 < eta -> 0 < rho -> 0 < k -> k <> 371 / 100 * D -> 0 <= L -> 0 <= zeta -> 0 < L + zeta ->
+    strictly_increasing (incomp_phi_nb A D eta k L zeta PL dl dh p_to p_from rho).
+Proof. exact KernelMono.incomp_nikuradse_law_strictly_monotone_numba. Qed.
+Print Assumptions incomp_nikuradse_law_strictly_monotone_numba.
+
 (* non-vacuity: a meshed two-loop network with parallel branches and a linear law has a solution *)
-Open Scope R_scope.
 Definition lin (k : R) : R -> R := fun m => k * m.
 Example lin_incr k : 0 < k -> strictly_increasing (lin k).
 Proof. intros Hk x y Hxy. unfold lin. nra. Qed.
